@@ -13,15 +13,15 @@ import (
 )
 
 type loopInfo struct {
-	header  *ssa.BasicBlock
-	num     int
-	body    map[*ssa.BasicBlock]bool
-	backs   []*ssa.BasicBlock // back-edge sources
-	ann     *LoopAnn
-	iter    ssa.Value // Range instruction if this is a map-range loop
-	idxPhi  *ssa.Phi  // range index phi of a slice-range loop
+	header   *ssa.BasicBlock
+	num      int
+	body     map[*ssa.BasicBlock]bool
+	backs    []*ssa.BasicBlock // back-edge sources
+	ann      *LoopAnn
+	iter     ssa.Value  // Range instruction if this is a map-range loop
+	idxPhi   *ssa.Phi   // range index phi of a slice-range loop
 	idxAlloc *ssa.Alloc // range index local (NaiveForm)
-	entryPC Term
+	entryPC  Term
 }
 
 type retPoint struct {
@@ -43,14 +43,14 @@ type Exec struct {
 	tuples map[ssa.Value][]Term
 	iptr   map[string]Addr // interior pointers materialised as values
 
-	heapSorts map[string]Sort
-	heapOrder []string
-	nilAxiom  map[string]bool
-	cardAx    map[string]bool
-	trusted   map[string]bool
+	heapSorts      map[string]Sort
+	heapOrder      []string
+	nilAxiom       map[string]bool
+	cardAx         map[string]bool
+	trusted        map[string]bool
 	assumedExterns map[string]bool
-	dropped   map[string]bool
-	qn        int
+	dropped        map[string]bool
+	qn             int
 
 	entry    *State
 	params   map[string]SVal
@@ -896,6 +896,23 @@ func (x *Exec) computeOrder() {
 			}
 		}
 	}
+	// ancestors (reachability over the full CFG, back edges included)
+	x.vc.anc = map[int]map[int]bool{}
+	for _, b := range fn.Blocks {
+		seenA := map[int]bool{b.Index: true}
+		stack := []*ssa.BasicBlock{b}
+		for len(stack) > 0 {
+			n := stack[len(stack)-1]
+			stack = stack[:len(stack)-1]
+			for _, p := range n.Preds {
+				if !seenA[p.Index] {
+					seenA[p.Index] = true
+					stack = append(stack, p)
+				}
+			}
+		}
+		x.vc.anc[b.Index] = seenA
+	}
 	// reverse postorder ignoring back edges
 	seen := map[*ssa.BasicBlock]bool{}
 	var post []*ssa.BasicBlock
@@ -917,8 +934,8 @@ func (x *Exec) computeOrder() {
 
 type snapshot struct {
 	ndecl, nassert, nobl, nrets, nobs int
-	exitSt map[*ssa.BasicBlock]*State
-	exitPC map[*ssa.BasicBlock]Term
+	exitSt                            map[*ssa.BasicBlock]*State
+	exitPC                            map[*ssa.BasicBlock]Term
 }
 
 func (x *Exec) snap() snapshot {
@@ -1013,6 +1030,7 @@ func (x *Exec) phiValue(ph *ssa.Phi, b *ssa.BasicBlock, onlyBack, onlyFwd bool, 
 }
 
 func (x *Exec) execBlock(b *ssa.BasicBlock) {
+	x.vc.curBlock = b.Index
 	var st *State
 	var pc Term
 	if f, ok := x.forced[b]; ok {
@@ -1055,6 +1073,7 @@ func (x *Exec) execBlock(b *ssa.BasicBlock) {
 
 func (x *Exec) enterLoop(li *loopInfo, st *State, pc Term) {
 	b := li.header
+	x.vc.curBlock = b.Index
 	li.entryPC = pc
 	// 1. invariants on entry
 	if li.ann != nil {
@@ -1214,6 +1233,7 @@ func (x *Exec) diffStates(entry *State, li *loopInfo) writeSet {
 }
 
 func (x *Exec) runBody(b *ssa.BasicBlock, st *State, pc Term) {
+	x.vc.curBlock = b.Index
 	for _, in := range b.Instrs {
 		if _, ok := in.(*ssa.Phi); ok {
 			continue
